@@ -249,12 +249,19 @@ def dbId (db : Db) : QId → Option Int
   | .id i => if db.liveId i then some i else none
   | .alias a => db.al.value a
 
+/-- undo command for the current owner of an alias that is about to be re-assigned -/
+def ownerUndo (al : IMap) (alias : Alias) : List Cmd :=
+  match al.value alias with
+  | some owner => [.insertAlias owner alias]
+  | none => []
+
 /-- `DbImpl::insert_alias`: new alias map and the undo commands pushed (in push order) -/
 def insertAlias (al : IMap) (id : Int) (alias : Alias) : IMap × List Cmd :=
   match al.key id with
   | some old =>
-    (((al.removeKey old).removeKey old).insert alias id, [.insertAlias id old, .removeAlias alias])
-  | none => (al.insert alias id, [.removeAlias alias])
+    let al1 := (al.removeKey old).removeKey old
+    (al1.insert alias id, [.insertAlias id old] ++ ownerUndo al1 alias ++ [.removeAlias alias])
+  | none => (al.insert alias id, ownerUndo al alias ++ [.removeAlias alias])
 
 /-- one undo command of `DbImpl::rollback` -/
 def undoCmd (al : IMap) : Cmd → IMap
